@@ -52,7 +52,7 @@ def TaskInv (c : Cfg) (i : Nat) (st dn : List Nat) (fb : Nat) (cancelled : Bool)
       st = down k ∧ dn = down k ∧ fb = 0 ∧ k ≤ c.budget ∧ Failed c i k ∧ (c.execS = .absent → k = 0) ∧
       (match last with | none => k = 0 | some e => ∃ j, k = j + 1 ∧ (c.exec i j).res = .error e)
   | .inExec k => st = down (k + 1) ∧ dn = down k ∧ fb = 0 ∧ k < c.budget ∧ Failed c i k ∧ c.execS ≠ .absent
-  | .store _ => Final c i st dn fb cancelled
+  | .store _ _ => Final c i st dn fb cancelled
 
 theorem Final.mono {c : Cfg} {i : Nat} {st dn : List Nat} {fb : Nat} {b b' : Bool} (hb : b = true → b' = true)
     (h : Final c i st dn fb b) : Final c i st dn fb b' := by
@@ -65,7 +65,7 @@ theorem Final.mono {c : Cfg} {i : Nat} {st dn : List Nat} {fb : Nat} {b b' : Boo
 theorem TaskInv.mono {c : Cfg} {i : Nat} {st dn : List Nat} {fb : Nat} {b b' : Bool} (hb : b = true → b' = true)
     {pc : Pc} (h : TaskInv c i st dn fb b pc) : TaskInv c i st dn fb b' pc := by
   cases pc with
-  | store r => exact Final.mono hb h
+  | store r f => exact Final.mono hb h
   | _ => exact h
 
 /-! ### program counters -/
@@ -434,7 +434,7 @@ theorem inv_ret {c : Cfg} {s s' : BState} {i : Nat} (inv : Inv c s) (h : apply c
       refine inv_local (i := i) inv rfl rfl (sublist_setPc _ _ _) ?_ (Or.inr (Or.inr (Or.inl ⟨k, rfl⟩))) ?_ ?_
       · intro j hji; simp only [setPc, pcIn_setPc, hji, if_false]
       · intro hc; simp [setPc, hc]
-      · apply ItemInv.of_task (pc' := .store (slotOfVal (execRet c.execS x)))
+      · apply ItemInv.of_task (pc' := .store (slotOfVal (execRet c.execS x)) false)
         · simp only [setPc, pcIn_setPc, if_true, hpc, Option.map_some]
         · simp only [setPc, starts_done, dones_done, fbs_done, if_true]
           exact .success h1 (by rw [h2, down_succ]) h3 h4 h5 hres
@@ -568,7 +568,7 @@ theorem inv_step {c : Cfg} {s s' : BState} {i : Nat} (inv : Inv c s) (h : apply 
           have : ¬ c.fb = .custom := fun hc => hncust hc
           simp [this, h3]
   · -- store
-    rename_i r hpc
+    rename_i r fl hpc
     rw [pcOf_eq] at hpc
     rw [hpc] at hitem
     simp only [Option.some.injEq] at h; subst h
@@ -638,7 +638,7 @@ theorem ItemInv.bounded {c : Cfg} {s : BState} {i : Nat} (h : ItemInv c s i) :
     | inExec k =>
       obtain ⟨h1, h2, h3, h4, h5, h6⟩ := h
       exact ⟨k + 1, h1, by omega, fun j hj => h5 j (by omega), by omega, by omega⟩
-    | store r => exact Final.bounded h
+    | store r f => exact Final.bounded h
   · split at h
     · exact fresh h
     · exact Final.bounded h
